@@ -81,6 +81,15 @@ class Factory(object):
         a = a + self.rng.random((rows, cols))
         return self._wrap(label, a, **kw)
 
+    def sym(self, rows, cols, label='IM', **kw):
+        """noise-free image, exactly symmetric about (rows // 2, cols // 2) when both sizes are odd
+        (centre of mass, convolution and Gaussian-fit centres coincide with the geometric centre)"""
+        y, x = np.mgrid[0:rows, 0:cols].astype(float)
+        r2 = (y - rows // 2) ** 2 + (x - cols // 2) ** 2
+        R = min(rows, cols) / 2.0
+        a = np.round(100 * np.exp(-r2 / (0.18 * R * R)) + 20 * np.exp(-(np.sqrt(r2) - 0.6 * R) ** 2 / 4.0), 3)
+        return self._wrap(label, a, **kw)
+
     def half(self, rows, cols, label='IM', **kw):
         """right-side half image (origin at column 0, centre row)"""
         y, x = np.mgrid[0:rows, 0:cols].astype(float)
@@ -295,7 +304,7 @@ def trash_args(A):
     return n
 
 
-def check_case(call_src, variant, seed, clauses=('args', 'repeat', 'uninit', 'result-mutation', 'arg-reuse')):
+def check_case(call_src, variant, seed, clauses=('args', 'repeat', 'uninit', 'result-mutation', 'arg-reuse', 'result-aliases-arg')):
     """Run the C18 clauses for one call on one argument variant.
     Returns (failures, info): failures = list of (clause, detail)."""
     fails = []
@@ -309,6 +318,11 @@ def check_case(call_src, variant, seed, clauses=('args', 'repeat', 'uninit', 're
     if e1 is not None and is_readonly_error(e1):
         fails.append(('args', 'the call writes into a read-only argument (%s)' % str(e1)[:80]))
         return fails, info
+    if 'result-aliases-arg' in clauses and e1 is None:
+        # no array reachable from the result may share memory with an array the caller passed
+        sh = shared(leaves(r1), [(label, base) for label, arr, base, before in A1.made])
+        if sh:
+            fails.append(('result-aliases-arg', '%s shares memory with the argument %s' % sh[0]))
     if 'repeat' in clauses or 'uninit' in clauses:
         A2, r2, e2 = one_call(call_src, variant, seed, float('nan'))
         d2 = exc_digest(e2) if e2 is not None else digest(r2)
